@@ -539,7 +539,7 @@ def read_results(path):
         return None
     with open(path, 'rb') as f:
         raw = f.read()
-    if path.endswith('.gz') or raw[:2] == b'\x1f\x8b':
+    if raw[:2] == b'\x1f\x8b':     # by content, never by name
         raw = gzip.decompress(raw)
     return json.loads(raw.decode())
 
